@@ -1,344 +1,4 @@
-// ---- Aho-Corasick correctness for the standard automaton, char-wise (NFA-level part generated from ghost_ac.rs by u8 -> char): the spec stream of the overlapping search over the
-// double array equals the property-level semantics ("all occurrences, by end, longest first"), GIVEN the contract of the
-// NFA fail/output passes (ac_fail, ac_outs: assumed, evaluated by the stand-in's NFA twin) ----
-spec fn is_suffix(a: Seq<char>, b: Seq<char>) -> bool { a.len() <= b.len() && a =~= b.skip(b.len() - a.len()) }
-spec fn t_node<V>(n: NfaBuilder<char, V>, q: Seq<char>) -> bool { walk(n, q).is_some() }
-
-// label sequence from the root to state s
-spec fn path<V>(n: NfaBuilder<char, V>, s: int) -> Seq<char>
-    decreases s
-{
-    if s < 2 { Seq::empty() } else { let p = nfa_parent(n, s); if 0 <= p.0 < s { path(n, p.0).push(p.1) } else { Seq::empty() } }
-}
-proof fn lemma_walk_path<V>(n: NfaBuilder<char, V>, s: int)
-    requires nfa_tree(n), 0 <= s < n.states@.len(), s != 1,
-    ensures walk(n, path(n, s)) == Some(s), path(n, s).len() == nfa_depth(n, s),
-    decreases s,
-{
-    if s >= 2 {
-        let p = nfa_parent(n, s);
-        assert(nfa_parent_ok(n, s, p));
-        lemma_walk_path(n, p.0);
-        let q = path(n, s);
-        assert(q.drop_last() =~= path(n, p.0));
-        assert(q.last() == p.1);
-        assert(t_edges(n, p.0) == nfa_edges(n, p.0));
-    } else {
-        assert(s == 0);
-    }
-}
-proof fn lemma_path_of_walk<V>(n: NfaBuilder<char, V>, q: Seq<char>)
-    requires nfa_tree(n), trie_ok(n), walk(n, q).is_some(),
-    ensures 0 <= walk(n, q).unwrap() < n.states@.len(), walk(n, q).unwrap() != 1, q == path(n, walk(n, q).unwrap()),
-{
-    lemma_walk_range(n, q);
-    let s = walk(n, q).unwrap();
-    lemma_walk_path(n, s);
-    lemma_walk_inj(n, q, path(n, s));
-}
-// the trie is prefix closed
-proof fn lemma_node_prefix<V>(n: NfaBuilder<char, V>, q: Seq<char>)
-    requires t_node(n, q), q.len() > 0,
-    ensures t_node(n, q.drop_last()),
-{
-}
-proof fn lemma_suffix_trans(a: Seq<char>, b: Seq<char>, c: Seq<char>)
-    requires is_suffix(a, b), is_suffix(b, c),
-    ensures is_suffix(a, c),
-{
-    assert(a =~= c.skip(c.len() - a.len()));
-}
-// two suffixes of the same sequence: the shorter is a suffix of the longer
-proof fn lemma_suffix_of_suffix(a: Seq<char>, b: Seq<char>, c: Seq<char>)
-    requires is_suffix(a, c), is_suffix(b, c), a.len() <= b.len(),
-    ensures is_suffix(a, b),
-{
-    assert(a =~= b.skip(b.len() - a.len()));
-}
-proof fn lemma_suffix_push(a: Seq<char>, b: Seq<char>, c: char)
-    requires is_suffix(a, b),
-    ensures is_suffix(a.push(c), b.push(c)),
-{
-    assert(a.push(c) =~= b.push(c).skip(b.push(c).len() - a.push(c).len()));
-}
-proof fn lemma_suffix_drop(q: Seq<char>, b: Seq<char>, c: char)
-    requires is_suffix(q, b.push(c)), q.len() > 0,
-    ensures q.last() == c, is_suffix(q.drop_last(), b),
-{
-    let bc = b.push(c);
-    assert(q.last() == bc[bc.len() - 1]);
-    assert(q.drop_last() =~= b.skip(b.len() - q.drop_last().len()));
-}
-
-// ASSUMED (build_fails): fail(s) is the state of the longest proper suffix of path(s) that is a trie node
-spec fn fail_ok<V>(n: NfaBuilder<char, V>, s: int, f: int) -> bool {
-    &&& 0 <= f < n.states@.len() && f != 1
-    &&& is_suffix(path(n, f), path(n, s)) && path(n, f).len() < path(n, s).len()
-    &&& forall|q: Seq<char>| is_suffix(q, path(n, s)) && q.len() < path(n, s).len() && #[trigger] t_node(n, q) ==> q.len() <= path(n, f).len()
-}
-#[verifier::opaque]
-spec fn ac_fail<V>(n: NfaBuilder<char, V>) -> bool {
-    forall|s: int| 2 <= s < n.states@.len() ==> fail_ok(n, s, (#[trigger] n.states@[s]).fail as int)
-}
-proof fn lemma_ac_fail<V>(n: NfaBuilder<char, V>, s: int)
-    requires ac_fail(n), 2 <= s < n.states@.len(),
-    ensures fail_ok(n, s, n.states@[s].fail as int),
-{ reveal(ac_fail); }
-
-// r is the state of the longest suffix of path(s)+c that is a trie node
-#[verifier::opaque]
-spec fn nd_ok<V>(n: NfaBuilder<char, V>, s: int, c: char, r: int) -> bool {
-    let pc = path(n, s).push(c);
-    &&& 0 <= r < n.states@.len() && r != 1
-    &&& is_suffix(path(n, r), pc)
-    &&& forall|q: Seq<char>| is_suffix(q, pc) && #[trigger] t_node(n, q) ==> q.len() <= path(n, r).len()
-}
-
-proof fn lemma_nd_edge<V>(n: NfaBuilder<char, V>, s: int, c: char)
-    requires nfa_tree(n), trie_ok(n), 0 <= s < n.states@.len(), s != 1, nfa_edges(n, s).contains_key(c),
-    ensures nd_ok(n, s, c, nfa_edges(n, s)[c] as int),
-{
-    reveal(nd_ok);
-    let p = path(n, s); let pc = p.push(c);
-    let r = nfa_edges(n, s)[c] as int;
-    lemma_walk_path(n, s);
-    assert(pc.drop_last() =~= p && pc.last() == c);
-    assert(t_edges(n, s) == nfa_edges(n, s));
-    assert(walk(n, pc) == Some(r));
-    lemma_path_of_walk(n, pc);
-    assert(path(n, r) == pc);
-    assert(is_suffix(pc, pc));
-}
-
-proof fn lemma_nd_root<V>(n: NfaBuilder<char, V>, c: char)
-    requires nfa_tree(n), trie_ok(n), !nfa_edges(n, 0).contains_key(c),
-    ensures nd_ok(n, 0, c, 0),
-{
-    reveal(nd_ok);
-    let pc = path(n, 0).push(c);
-    assert(path(n, 0).len() == 0);
-    assert(is_suffix(path(n, 0), pc));
-    assert forall|q: Seq<char>| is_suffix(q, pc) && #[trigger] t_node(n, q) implies q.len() <= 0 by {
-        if q.len() > 0 {
-            assert(q.len() == 1);
-            assert(q.drop_last().len() == 0);
-            assert(walk(n, q.drop_last()) == Some(0int));
-            assert(q.last() == pc[0]);
-            assert(t_edges(n, 0) == nfa_edges(n, 0));
-        }
-    }
-}
-
-proof fn lemma_nd_step<V>(n: NfaBuilder<char, V>, s: int, c: char, f: int, r: int)
-    requires nfa_tree(n), trie_ok(n), 2 <= s < n.states@.len(), !nfa_edges(n, s).contains_key(c), fail_ok(n, s, f), nd_ok(n, f, c, r),
-    ensures nd_ok(n, s, c, r),
-{
-    reveal(nd_ok);
-    let p = path(n, s); let pc = p.push(c);
-    let pf = path(n, f);
-    lemma_walk_path(n, s);
-    lemma_suffix_push(pf, p, c);
-    lemma_suffix_trans(path(n, r), pf.push(c), pc);
-    assert forall|q: Seq<char>| is_suffix(q, pc) && #[trigger] t_node(n, q) implies q.len() <= path(n, r).len() by {
-        if q.len() > 0 {
-            lemma_suffix_drop(q, p, c);
-            let q1 = q.drop_last();
-            lemma_node_prefix(n, q);
-            if q1.len() == p.len() {
-                // q1 would be all of p: then s has the edge c
-                assert(q1 =~= p);
-                assert(walk(n, q1) == Some(s));
-                assert(t_edges(n, s).contains_key(q.last()));
-                assert(t_edges(n, s) == nfa_edges(n, s));
-                assert(false);
-            }
-            assert(t_node(n, q1));
-            assert(q1.len() <= pf.len());
-            lemma_suffix_of_suffix(q1, pf, p);
-            lemma_suffix_push(q1, pf, c);
-            assert(q1.push(c) =~= q);
-            assert(is_suffix(q, pf.push(c)));
-        }
-    }
-}
-
-// the structural hypotheses in one opaque bundle: the inductive lemmas below see only this atom
-#[verifier::opaque]
-spec fn ac_ctx0<V>(n: NfaBuilder<char, V>) -> bool { nfa_tree(n) && trie_ok(n) && nfa_links(n, false) && ac_fail(n) }
-
-proof fn w_nd_unfold<V>(n: NfaBuilder<char, V>, s: int, c: char)
-    requires ac_ctx0(n), 0 <= s < n.states@.len(), s != 1,
-    ensures nfa_nd(n, s, c) == (if nfa_edges(n, s).contains_key(c) { nfa_edges(n, s)[c] as int } else if s == 0 { 0 } else { nfa_nd(n, n.states@[s].fail as int, c) }),
-        0 <= nfa_nd(n, s, c) < n.states@.len(), nfa_nd(n, s, c) != 1,
-        s >= 2 ==> 0 <= n.states@[s].fail < n.states@.len() && n.states@[s].fail != 1 && nfa_depth(n, n.states@[s].fail as int) < nfa_depth(n, s),
-{
-    reveal(ac_ctx0);
-    lemma_nd_range(n, s, c);
-}
-proof fn w_nd_edge<V>(n: NfaBuilder<char, V>, s: int, c: char)
-    requires ac_ctx0(n), 0 <= s < n.states@.len(), s != 1, nfa_edges(n, s).contains_key(c),
-    ensures nd_ok(n, s, c, nfa_edges(n, s)[c] as int),
-{ reveal(ac_ctx0); lemma_nd_edge(n, s, c); }
-proof fn w_nd_root<V>(n: NfaBuilder<char, V>, c: char)
-    requires ac_ctx0(n), !nfa_edges(n, 0).contains_key(c),
-    ensures nd_ok(n, 0, c, 0),
-{ reveal(ac_ctx0); lemma_nd_root(n, c); }
-proof fn w_nd_step<V>(n: NfaBuilder<char, V>, s: int, c: char, r: int)
-    requires ac_ctx0(n), 2 <= s < n.states@.len(), !nfa_edges(n, s).contains_key(c), nd_ok(n, n.states@[s].fail as int, c, r),
-    ensures nd_ok(n, s, c, r),
-{
-    reveal(ac_ctx0);
-    lemma_ac_fail(n, s);
-    lemma_nd_step(n, s, c, n.states@[s].fail as int, r);
-}
-
-// the goto/fail transition computes the longest suffix of path(s)+c that is a trie node
-proof fn lemma_nd_longest<V>(n: NfaBuilder<char, V>, s: int, c: char)
-    requires ac_ctx0(n), 0 <= s < n.states@.len(), s != 1,
-    ensures nd_ok(n, s, c, nfa_nd(n, s, c)),
-    decreases nfa_depth(n, s),
-{
-    w_nd_unfold(n, s, c);
-    if nfa_edges(n, s).contains_key(c) {
-        w_nd_edge(n, s, c);
-    } else if s == 0 {
-        w_nd_root(n, c);
-    } else {
-        let f = n.states@[s].fail as int;
-        lemma_nd_longest(n, f, c);
-        w_nd_step(n, s, c, nfa_nd(n, f, c));
-    }
-}
-
-// ---- the state reached from the root after reading w is the longest suffix of w that is a trie node ----
-spec fn ls<V>(n: NfaBuilder<char, V>, w: Seq<char>) -> int
-    decreases w.len()
-{
-    if w.len() == 0 { 0 } else { nfa_nd(n, ls(n, w.drop_last()), w.last()) }
-}
-// r is the state of the longest suffix of w that is a trie node
-#[verifier::opaque]
-spec fn ls_ok<V>(n: NfaBuilder<char, V>, w: Seq<char>, r: int) -> bool {
-    &&& 0 <= r < n.states@.len() && r != 1
-    &&& is_suffix(path(n, r), w)
-    &&& forall|q: Seq<char>| is_suffix(q, w) && #[trigger] t_node(n, q) ==> q.len() <= path(n, r).len()
-}
-proof fn lemma_ls_step<V>(n: NfaBuilder<char, V>, w: Seq<char>, c: char, x: int, r: int)
-    requires nfa_tree(n), trie_ok(n), ls_ok(n, w, x), nd_ok(n, x, c, r),
-    ensures ls_ok(n, w.push(c), r),
-{
-    reveal(nd_ok); reveal(ls_ok);
-    let p = path(n, x); let wc = w.push(c);
-    lemma_suffix_push(p, w, c);
-    lemma_suffix_trans(path(n, r), p.push(c), wc);
-    assert forall|q: Seq<char>| is_suffix(q, wc) && #[trigger] t_node(n, q) implies q.len() <= path(n, r).len() by {
-        if q.len() > 0 {
-            lemma_suffix_drop(q, w, c);
-            let q1 = q.drop_last();
-            lemma_node_prefix(n, q);
-            assert(t_node(n, q1));
-            assert(q1.len() <= p.len());
-            lemma_suffix_of_suffix(q1, p, w);
-            lemma_suffix_push(q1, p, c);
-            assert(q1.push(c) =~= q);
-            assert(is_suffix(q, p.push(c)));
-        }
-    }
-}
-proof fn lemma_ls_empty<V>(n: NfaBuilder<char, V>, w: Seq<char>)
-    requires ac_ctx0(n), w.len() == 0,
-    ensures ls_ok(n, w, 0),
-{
-    reveal(ls_ok); reveal(ac_ctx0);
-    assert(path(n, 0).len() == 0);
-    assert(is_suffix(path(n, 0), w));
-}
-proof fn lemma_ls_range<V>(n: NfaBuilder<char, V>, w: Seq<char>, r: int)
-    requires ls_ok(n, w, r),
-    ensures 0 <= r < n.states@.len(), r != 1,
-{ reveal(ls_ok); }
-proof fn w_ls_step<V>(n: NfaBuilder<char, V>, w: Seq<char>, c: char, x: int, r: int)
-    requires ac_ctx0(n), ls_ok(n, w, x), nd_ok(n, x, c, r),
-    ensures ls_ok(n, w.push(c), r),
-{ reveal(ac_ctx0); lemma_ls_step(n, w, c, x, r); }
-proof fn lemma_ls<V>(n: NfaBuilder<char, V>, w: Seq<char>)
-    requires ac_ctx0(n),
-    ensures ls_ok(n, w, ls(n, w)),
-    decreases w.len(),
-{
-    if w.len() == 0 {
-        lemma_ls_empty(n, w);
-    } else {
-        let w1 = w.drop_last(); let c = w.last();
-        lemma_ls(n, w1);
-        let x = ls(n, w1);
-        lemma_ls_range(n, w1, x);
-        lemma_nd_longest(n, x, c);
-        w_ls_step(n, w1, c, x, nfa_nd(n, x, c));
-        assert(w1.push(c) =~= w);
-    }
-}
-
-// ---- property-level semantics of the overlapping search (C01): at every end position, all registered patterns
-// that end there, longest first; end positions in increasing order ----
-spec fn reg_match<V>(n: NfaBuilder<char, V>, q: Seq<char>, end: nat) -> Match<V> {
-    let o = n.states@[walk(n, q).unwrap()].output.unwrap();
-    Match { length: o.1@ as usize, end: end as usize, value: o.0 }
-}
-// matches for the registered patterns among the suffixes p[i..], p[i+1..], ... (longest first)
-spec fn suf_matches<V>(n: NfaBuilder<char, V>, p: Seq<char>, i: nat, end: nat) -> Seq<Match<V>>
-    decreases p.len() - i
-{
-    if i >= p.len() { Seq::empty() } else {
-        (if is_registered(n, p.skip(i as int)) { seq![reg_match(n, p.skip(i as int), end)] } else { Seq::empty() }) + suf_matches(n, p, i + 1, end)
-    }
-}
-// suffixes of w that are longer than its longest trie-node suffix p are not registered: both give the same matches
-proof fn lemma_suf_shift<V>(n: NfaBuilder<char, V>, w: Seq<char>, p: Seq<char>, j: nat, end: nat)
-    requires is_suffix(p, w), j <= p.len(),
-    ensures suf_matches(n, w, (w.len() - p.len() + j) as nat, end) == suf_matches(n, p, j, end),
-    decreases p.len() - j,
-{
-    let d = (w.len() - p.len()) as nat;
-    if j < p.len() {
-        assert(w.skip((d + j) as int) =~= p.skip(j as int));
-        lemma_suf_shift(n, w, p, j + 1, end);
-    }
-}
-proof fn lemma_suf_longest<V>(n: NfaBuilder<char, V>, w: Seq<char>, r: int, i: nat, end: nat)
-    requires ls_ok(n, w, r), i <= w.len() - path(n, r).len(),
-    ensures suf_matches(n, w, i, end) == suf_matches(n, path(n, r), 0, end),
-    decreases w.len() - path(n, r).len() - i,
-{
-    reveal(ls_ok);
-    let p = path(n, r);
-    let d = (w.len() - p.len()) as nat;
-    if i < d {
-        let q = w.skip(i as int);
-        assert(is_suffix(q, w));
-        assert(!t_node(n, q));
-        assert(!is_registered(n, q));
-        lemma_suf_longest(n, w, r, i + 1, end);
-        assert(suf_matches(n, w, i, end) =~= suf_matches(n, w, i + 1, end));
-    } else {
-        lemma_suf_shift(n, w, p, 0, end);
-    }
-}
-proof fn lemma_ls_len<V>(n: NfaBuilder<char, V>, w: Seq<char>, r: int)
-    requires ls_ok(n, w, r),
-    ensures path(n, r).len() <= w.len(),
-{ reveal(ls_ok); }
-
-// ASSUMED (build_outputs): the output chain of a state lists the registered patterns that are suffixes of its path, longest first
-#[verifier::opaque]
-spec fn ac_outs<V>(n: NfaBuilder<char, V>) -> bool {
-    forall|s: int, end: nat| 0 <= s < n.states@.len() && s != 1 ==>
-        #[trigger] chain(n.outputs@, opt_n(n.states@[s].output_pos), end) == suf_matches(n, path(n, s), 0, end)
-}
-proof fn lemma_ac_outs<V>(n: NfaBuilder<char, V>, s: int, end: nat)
-    requires ac_outs(n), 0 <= s < n.states@.len(), s != 1,
-    ensures chain(n.outputs@, opt_n(n.states@[s].output_pos), end) == suf_matches(n, path(n, s), 0, end),
-{ reveal(ac_outs); }
+//@include_subst ghost_ac_nfa.rs u8=char
 
 
 // what is reported after the characters `done` followed by c: the state and its output chain
